@@ -44,6 +44,13 @@ Join(lib, i, fmt, vc) == IF i > Len(lib) THEN ""
                          ELSE BlockText(lib[i], fmt, vc) \o (IF i < Len(lib) THEN fmt.sep ELSE "") \o Join(lib, i + 1, fmt, vc)
 Write(lib, fmt) == Join(lib, 1, fmt, Column(lib, fmt))
 
+\* the parts of the text that the statement of C06 fixes exactly: the field lines of an entry, and a failed block under
+\* its warning comment (used to judge an output that is not identical to Write's: see harness c06 "relation")
+Fixed(lib, fmt) == LET vc == Column(lib, fmt) IN
+    [x \in DOMAIN lib |-> CASE lib[x].t = "entry" -> FieldLines(lib[x].fields, 1, fmt, vc)
+                            [] lib[x].t = "failed" -> Warning(fmt, lib[x].nl) \o "\n" \o lib[x].raw \o "\n"
+                            [] OTHER -> ""]
+
 \* ---- declarative clauses of the statement (on the pieces the text is built from) -------------
 \* column (0-based) at which the value of a field starts on its line
 ValueColumn(f, fmt, vc) == Len(fmt.indent) + Len(f.k) + PadLen(f.k, vc) + Len(VALSEP)
